@@ -192,24 +192,16 @@ class FileResponseMixin:
         if any(not (0 <= start < max_size) for start, _ in ranges):
             raise RangeNotSatisfiable(max_size)
 
-        if any(start > end for start, end in ranges):
+        if any(start >= end for start, end in ranges):
             raise MalformedRangeHeader("Range header: start must be less than end")
 
         if len(ranges) == 1:
             return ranges
 
         result: List[Tuple[int, int]] = []
-        for start, end in ranges:
-            for p in range(len(result)):
-                p_start, p_end = result[p]
-                if start > p_end:
-                    continue
-                elif end < p_start:
-                    result.insert(p, (start, end))
-                    break
-                else:
-                    result[p] = (min(start, p_start), max(end, p_end))
-                    break
+        for start, end in sorted(ranges):
+            if result and start <= result[-1][1]:
+                result[-1] = (result[-1][0], max(end, result[-1][1]))
             else:
                 result.append((start, end))
         return result
